@@ -1,3 +1,4 @@
+\* protocol as implemented, 1 connection x 2 callers, heads 0..3, clock 0..4
 CONSTANTS
   NC = 1
   Waiters = {w1, w2}
@@ -14,7 +15,8 @@ CONSTANTS
   MaxFlips = 0
   FixNotify = FALSE
   FixTimer = FALSE
+  FixSetHead = FALSE
 SPECIFICATION Spec
 SYMMETRY Sym
-INVARIANTS Safe NeverStuck ByDeadline
+INVARIANTS Safe
 CHECK_DEADLOCK FALSE
